@@ -20,7 +20,7 @@ func (world) Rule(string) string {
 		"(1) intact file + same password; (2) every other menu password and 6 near-miss variants of the right one; (3) the file truncated to EVERY shorter length (complete enumeration); " +
 		"(4) single-bit flips of the file: every bit of every byte in the thorough tier, 64 tape-sampled (byte,bit) positions in the quick tier; " +
 		"(5) the raw ciphertext handed to DecryptPrivateKey and Decrypt truncated to EVERY shorter length, extended by 1..16 bytes, and with single-bit flips (all bits thorough / 64 sampled quick); " +
-		"(6) the Type field rewritten to the other schemes (counted only). Every call is made under recover(). " +
+		"(6) the Type field rewritten to the other schemes (counted only); (7) a caller-owned password buffer: a key is encrypted through a buffer that the caller then wipes (an all-zero password of that length must not open it) and reuses for another password and another key (the earlier password must not open the second key; after an unrelated call each key still opens with the bytes the buffer held at the time of its encryption). Every call is made under recover(). " +
 		"Every run is non-trivial (each applies several hundred faults); distinct = distinct (scheme, password, outcome histogram) fingerprint. After every section, and while a second key file of each scheme is written and read (7), every key handed out earlier is compared with the original again: a caller holds several keys at once."
 }
 func (world) Components(string) ([]string, []string) {
